@@ -531,7 +531,29 @@ def run_seeds_and_ends(rec, tier, seed):
                         rec.violation("dinucleotide:region_from_the_right_differs", case)
         if not torch.equal(X, Xc):
             rec.violation("dinucleotide:input_modified", dict(fn="seeds_and_ends", L=L))
-    rec.sample(dict(kind="seeds_and_ends", seeds=[str(x) for x in seeds], lengths=[6, 9, 17, 40, 300]))
+    # many shuffles of a long region in ONE call (n x alphabet x length beyond 2^24 cells): every one of them a valid shuffle
+    for (Lb, nb) in (((1 << 18) + 5, 17),) + ((((1 << 20) + 3, 5),) if tier != "quick" else ()):
+        codes = _longseq(Lb, 4, 1 + seed % 3)[None, :]
+        X = ohe(codes, 4)
+        case = dict(fn="dinucleotide_shuffle", A=4, L=Lb, n=nb, seed=3, generator="_longseq/seeds", cells=nb * 4 * Lb)
+        st, val = call(E.dinucleotide_shuffle, X, n=nb, random_state=3)
+        rec.case(1, 1)
+        if st != "ok":
+            rec.violation("dinucleotide:compiled_raises", case, observed=val)
+        else:
+            ref_pairs = numpy.bincount(codes[0, :-1] * 4 + codes[0, 1:], minlength=16)
+            for j in range(nb):
+                col = val[0, j].sum(dim=0)
+                if tuple(val.shape) != (1, nb, 4, Lb) or not bool((col == 1).all()) or not bool(((val[0, j] == 0) | (val[0, j] == 1)).all()):
+                    rec.violation("dinucleotide:not_one_hot", dict(case, shuffle=j))
+                    break
+                g = val[0, j].argmax(dim=0).numpy()
+                if not numpy.array_equal(numpy.bincount(g[:-1] * 4 + g[1:], minlength=16), ref_pairs) or g[0] != codes[0, 0] or g[-1] != codes[0, -1]:
+                    rec.violation("dinucleotide:pairs_not_preserved", dict(case, shuffle=j))
+                    break
+            rec.count("traces_validated_against_impl")
+        del X, val
+    rec.sample(dict(kind="seeds_and_ends", seeds=[str(x) for x in seeds], lengths=[6, 9, 17, 40, 300], many_long_shuffles="n=17 x L=2^18+5"))
 
 
 def run_shard(sh, tier, seed):
